@@ -303,9 +303,43 @@ func runTable(c *TCase) (st tStats, err error) {
 			sortedProbes = append(sortedProbes, kv.K)
 		}
 	}
+	// the separators the writer may have put into the index block: keys that lie between two
+	// adjacent stored keys (or after the last one) without being stored
+	for i := 0; i < len(kvs) && len(sortedProbes) < 400; i++ {
+		var sp []byte
+		if i+1 < len(kvs) {
+			sp = tcmp.Separator(nil, kvs[i].K, kvs[i+1].K)
+		} else {
+			sp = tcmp.Successor(nil, kvs[i].K)
+		}
+		if sp != nil {
+			sortedProbes = append(sortedProbes, sp)
+		}
+	}
 	sort.Slice(sortedProbes, func(i, j int) bool { return tcmp.Compare(sortedProbes[i], sortedProbes[j]) < 0 })
 	for _, p := range sortedProbes {
 		idx := sort.Search(len(kvs), func(i int) bool { return tcmp.Compare(kvs[i].K, p) >= 0 })
+		for _, filtered := range []bool{false, true} {
+			fk, ferr := tr.FindKey(p, filtered, nil)
+			isStored := idx < len(kvs) && tcmp.Compare(kvs[idx].K, p) == 0
+			switch {
+			case ferr == nil:
+				if idx == len(kvs) || !bytes.Equal(fk, kvs[idx].K) {
+					return st, fmt.Errorf("FindKey(%q, filtered=%v) = %q; the first stored key >= probe is %q", p, filtered, fk, func() []byte {
+						if idx < len(kvs) {
+							return kvs[idx].K
+						}
+						return nil
+					}())
+				}
+			case ferr == table.ErrNotFound:
+				if idx < len(kvs) && (!filtered || isStored) {
+					return st, fmt.Errorf("FindKey(%q, filtered=%v) says not found; the first stored key >= probe is %q", p, filtered, kvs[idx].K)
+				}
+			default:
+				return st, fmt.Errorf("FindKey(%q, filtered=%v): %v", p, filtered, ferr)
+			}
+		}
 		rk, rv, err := tr.Find(p, false, nil)
 		if idx == len(kvs) {
 			if err != table.ErrNotFound {
